@@ -13,7 +13,7 @@ use crate::zgen::*;
 pub const INFO: CheckInfo = CheckInfo {
     prop: "C08",
     level: "model_checking",
-    rule: "valid zlib / gzip(+FHCRC) streams (R4 corpus in R3 wrappers; encoder-produced streams with 0 B .. 100 KB of output so that per-call output exceeds the 32 KiB window, wraps and splits) x {intact, ALL 255 alternative values of each of the last 12 bytes and of each header byte, every single-bit flip elsewhere (lattice on long streams)} x schedules {one call, 1-byte input, 1-byte output, output room 32767/32768/32769, trailer delivered in a separate call} x windowBits {zlib/gzip/auto}. Oracle (independent of the decoder model): whenever inflate returns Z_STREAM_END, the trailer just consumed equals the Adler-32 / CRC-32 + length (R1) of the bytes actually output in this execution, and a gzip header with FHCRC has a correct CRC-16. Histories: every sequence of <= 3 (4) operations over {three inflate call shapes, inflateSync, inflateValidate(0/1), inflateReset, inflateReset2} on 5 data sets, then inflateReset / inflateReset2 and the stream again with each trailer byte damaged: with checking enabled according to a one-flag model (cleared only by inflateValidate(0) or a successful inflateSync, restored by inflateReset2) a wrong trailer must be rejected. distinct_nontrivial = distinct (verdict, output hash, consumed) outcomes; the number of accepted corrupted streams is reported (must be 0 unless the corruption is checksum-neutral).",
+    rule: "valid zlib / gzip(+FHCRC) streams (R4 corpus in R3 wrappers; encoder-produced streams with 0 B .. 100 KB of output so that per-call output exceeds the 32 KiB window, wraps and splits) x {intact, ALL 255 alternative values of each of the last 12 bytes and of each header byte, every single-bit flip elsewhere (lattice on long streams)} x schedules {one call, 1-byte input, 1-byte output, output room 32767/32768/32769, trailer delivered in a separate call} x windowBits {zlib/gzip/auto}. Oracle (independent of the decoder model): whenever inflate returns Z_STREAM_END, the trailer just consumed equals the Adler-32 / CRC-32 + length (R1) of the bytes actually output in this execution, and a gzip header with FHCRC has a correct CRC-16. Histories: every sequence of <= 3 (4) operations over {three inflate call shapes, inflateSync, inflateValidate(0/1), inflateReset, inflateReset2} on 5 data sets, then inflateReset / inflateReset2 and the stream again with each trailer byte damaged: with checking enabled according to a one-flag model (cleared only by inflateValidate(0) or a successful inflateSync, restored by inflateReset2) a wrong trailer must be rejected. distinct_nontrivial = distinct (verdict, output hash, consumed) outcomes; the number of accepted corrupted streams is reported (must be 0 unless the corruption is checksum-neutral). Family four-gib-member: a gzip member of 2^32 + 5 zero bytes (built bit by bit) decoded into a reused 1 MiB room: accepted with ISIZE 5, rejected with ISIZE 4 / 6 or a wrong CRC; total_out counts past 2^32.",
     assumptions: &["R1 is the checksum definition", "checksum collisions are not excluded by the property; none can occur for single-byte faults of a CRC-32/Adler-32 protected stream of these sizes except in fields the format ignores (MTIME, XFL, OS, name bytes without FHCRC)"],
     bound_quick: "corpus streams <= 300 bytes: all faults; 4 long streams: header/trailer all values + flips on a sparse lattice",
     bound_thorough: "denser lattice on long streams (stride 331 bits), 8 long streams",
@@ -272,9 +272,100 @@ fn header_crc_alignments(ctx: &mut Ctx) {
     }
 }
 
+/// gzip members whose length passes 2^32: the trailer's ISIZE is the length modulo 2^32 (RFC 1952). One member of
+/// 2^32 + 5 zero bytes (a literal, 20 more literals and 16 647 160 two-bit matches of length 258, built bit by bit: about
+/// 4 MiB of input), decoded into a 1 MiB room that is reused: accepted with the right ISIZE (5), rejected with ISIZE 4, 6,
+/// and with the non-reduced length's low word changed; total_out counts past 2^32.
+fn four_gib_members(ctx: &mut Ctx) {
+    for (what, isize_delta, crc_flip, want) in [("right ISIZE", 0i64, 0u32, Z_STREAM_END), ("ISIZE one too small", -1, 0, Z_DATA_ERROR), ("ISIZE one too large", 1, 0, Z_DATA_ERROR), ("wrong CRC", 0, 1 << 9, Z_DATA_ERROR)] {
+        ctx.case(
+            "four-gib-member",
+            || format!("gzip member of 2^32 + 5 zero bytes, {what}, inflate(31) with the whole input and a 1 MiB room per call"),
+            |c| unsafe {
+                use crate::refs::builder::{canonical, emit_dynamic_header, BitW, Rle};
+                let total: u64 = (1u64 << 32) + 5;
+                let mut ll = vec![0u8; 286];
+                ll[0] = 2;
+                ll[256] = 2;
+                ll[285] = 1;
+                let codes = canonical(&ll);
+                let mut w = BitW::default();
+                w.put(1, 1);
+                w.put(2, 2);
+                emit_dynamic_header(&mut w, &ll, &[1], Rle::Greedy, true);
+                let matches = (total - 21) / 258;
+                assert_eq!(21 + matches * 258, total);
+                for _ in 0..21 {
+                    w.put_code(codes[0], 2);
+                }
+                for _ in 0..matches {
+                    w.put_code(codes[285], 1);
+                    w.put_code(0, 1); // distance code 0 (distance 1), the only one
+                }
+                w.put_code(codes[256], 2);
+                let raw = w.finish();
+                // CRC-32 of the data from the reference implementation
+                let zeros = vec![0u8; 1 << 20];
+                let mut crc = Ng::crc32(0, std::ptr::null(), 0);
+                let mut left = total;
+                while left > 0 {
+                    let n = left.min(1 << 20) as u32;
+                    crc = Ng::crc32(crc, zeros.as_ptr(), n);
+                    left -= n as u64;
+                }
+                let mut gz = vec![0x1f, 0x8b, 8, 0, 0, 0, 0, 0, 0, 3];
+                gz.extend_from_slice(&raw);
+                gz.extend_from_slice(&((crc as u32) ^ crc_flip).to_le_bytes());
+                gz.extend_from_slice(&(((total as i64 + isize_delta) as u64) as u32).to_le_bytes());
+                c.exec();
+                let mut st = Strm::plain();
+                if Rs::inflateInit2_(st.p(), 31, Rs::zlibVersion(), STREAM_SIZE) != Z_OK {
+                    return Err("init".into());
+                }
+                let mut room = vec![0xA5u8; 1 << 20];
+                st.z.next_in = gz.as_ptr() as *mut u8;
+                st.z.avail_in = gz.len() as u32;
+                let mut ret;
+                let mut calls = 0u64;
+                let mut nonzero = false;
+                loop {
+                    st.z.next_out = room.as_mut_ptr();
+                    st.z.avail_out = room.len() as u32;
+                    ret = Rs::inflate(st.p(), Z_NO_FLUSH);
+                    calls += 1;
+                    let made = room.len() - st.z.avail_out as usize;
+                    if calls % 512 == 1 {
+                        nonzero |= room[..made].iter().any(|&b| b != 0);
+                        crate::engine::heartbeat();
+                    }
+                    if ret != Z_OK || calls > 5000 {
+                        break;
+                    }
+                }
+                let (tin, tout) = (st.z.total_in as u64, st.z.total_out as u64);
+                Rs::inflateEnd(st.p());
+                if ret != want {
+                    return Err(format!("inflate ended with {} after {tout} bytes out ({calls} calls), expected {}", rc_name(ret), rc_name(want)));
+                }
+                if nonzero {
+                    return Err("decoded bytes are not all zero".into());
+                }
+                if want == Z_STREAM_END && (tout != total || tin != gz.len() as u64) {
+                    return Err(format!("total_out {tout} (data {total}), total_in {tin} (stream {})", gz.len()));
+                }
+                c.outcome(ret as u64 ^ tout);
+                c.nontrivial();
+                c.validated();
+                Ok(())
+            },
+        );
+    }
+}
+
 pub fn run(ctx: &mut Ctx) {
     histories(ctx);
     header_crc_alignments(ctx);
+    four_gib_members(ctx);
     let quick = ctx.quick();
     let env = Env::new();
     let tg = targets(quick);
